@@ -19,7 +19,6 @@ import (
 	"math"
 	"math/bits"
 	"runtime"
-	"sync"
 	"sync/atomic"
 	"time"
 
@@ -54,41 +53,6 @@ type baseTrafficShapingController struct {
 	durationInSec int64
 
 	metric *ParamsMetric
-
-	// loadedID is the ID of the rule this controller currently stands for, if it is not r.ID (renamed).
-	// Both are guarded by loadedIDMux.
-	loadedID string
-	renamed  bool
-}
-
-var loadedIDMux sync.Mutex
-
-// loadedRuleID returns the ID of the rule the controller currently stands for. It differs from
-// BoundRule().ID after a load that gave the rule another ID and changed nothing else: the controller,
-// and the rule object in it, stay in place then.
-func (c *baseTrafficShapingController) loadedRuleID() string {
-	loadedIDMux.Lock()
-	defer loadedIDMux.Unlock()
-	if c.renamed {
-		return c.loadedID
-	}
-	return c.r.ID
-}
-
-func (c *baseTrafficShapingController) setLoadedRuleID(id string) {
-	loadedIDMux.Lock()
-	defer loadedIDMux.Unlock()
-	c.renamed = id != c.r.ID
-	c.loadedID = id
-}
-
-// loadedIDOf is the ID a controller of any type goes by: controllers that are not built on
-// baseTrafficShapingController (custom behaviours) go by their bound rule's.
-func loadedIDOf(tc TrafficShapingController) string {
-	if c, ok := tc.(interface{ loadedRuleID() string }); ok {
-		return c.loadedRuleID()
-	}
-	return tc.BoundRule().ID
 }
 
 func newBaseTrafficShapingControllerWithMetric(r *Rule, metric *ParamsMetric) *baseTrafficShapingController {
